@@ -83,18 +83,32 @@ def schedules(total, rng, quick):
     out = [[total]] if total else []
     if total <= 1:
         return out
-    for c in range(1, total):
-        out.append([c, total - c])
-    out.append([1] * total)
-    pairs = [(a, b) for a in range(1, total) for b in range(a + 1, total)]
-    if len(pairs) > (60 if quick else 600):
-        pairs = rng.sample(pairs, 60 if quick else 600)
+    npairs = 60 if quick else 600
+    if total <= 3000:
+        for c in range(1, total):
+            out.append([c, total - c])
+        out.append([1] * total)
+    else:
+        # long streams: cuts around the header, around the end and a sample in between (every cut and the byte-wise
+        # schedule would cost total parses of up to total bytes each)
+        for c in sorted(set(list(range(1, 40)) + list(range(total - 40, total)) + [rng.randrange(1, total) for _ in range(200)])):
+            out.append([c, total - c])
+    if (total - 1) * (total - 2) // 2 <= npairs:
+        pairs = [(a, b) for a in range(1, total) for b in range(a + 1, total)]
+    else:
+        pairs = set()
+        while len(pairs) < npairs:
+            a, b = sorted((rng.randrange(1, total), rng.randrange(1, total)))
+            if a != b:
+                pairs.add((a, b))
+        pairs = sorted(pairs)
     for a, b in pairs:
         out.append([a, b - a, total - b])
+    sizes = [1, 2, 3, 7, 50] if total <= 3000 else [total // 200 + 1, total // 50 + 1, total // 7 + 1]
     for _ in range(10 if quick else 60):
         rest, ch = total, []
         while rest:
-            k = rng.randint(1, max(1, min(rest, rng.choice([1, 2, 3, 7, 50]))))
+            k = rng.randint(1, max(1, min(rest, rng.choice(sizes))))
             ch.append(k)
             rest -= k
         out.append(ch)
